@@ -68,16 +68,17 @@ type run struct {
 	inner   *scheduler.ExecutionGraph
 	sched   *scheduler.Scheduler
 
-	mu       sync.Mutex
-	log      []Event
-	entered  map[int]int // stage -> number of Run entries
-	inflight map[int]chan bool
-	free     bool // release everything immediately (clean-up mode)
-	passes   [2]int64
-	returned int32
-	retErr   error
-	done     chan struct{}
-	record   bool
+	mu            sync.Mutex
+	log           []Event
+	entered       map[int]int // stage -> number of Run entries
+	inflight      map[int]chan bool
+	free          bool // release everything immediately (clean-up mode)
+	passes        [2]int64
+	returned      int32
+	retErr        error
+	done          chan struct{}
+	record        bool
+	holdTransient bool
 }
 
 var registry sync.Map // *scheduler.ExecutionGraph / *scheduler.Stage -> *run
@@ -97,6 +98,23 @@ func init() {
 	scheduler.VerifStatusHook = func(st *scheduler.Stage, status int32) {
 		if v, ok := registry.Load(st); ok {
 			r := v.(*run)
+			// The two stores of an allowed failure (Error, then Done) are two steps of the model
+			// (TaskReturn, PublishDone): hold the stage goroutine between them until the loop
+			// has made two full passes, so that the transient Error is really observed by it.
+			if id := r.byStage[st]; r.holdTransient && status == scheduler.StatusDone &&
+				st.ReadStatus() == scheduler.StatusError && r.cfg.Cls[id-1] == "FAILA" {
+				g := 0
+				for _, in := range r.cfg.Inner {
+					if in == id {
+						g = 1
+					}
+				}
+				p0 := atomic.LoadInt64(&r.passes[g])
+				lim := time.Now().Add(500 * time.Millisecond)
+				for atomic.LoadInt64(&r.passes[g])-p0 < 2 && time.Now().Before(lim) && !r.hasReturned() {
+					time.Sleep(50 * time.Microsecond)
+				}
+			}
 			if r.record {
 				r.mu.Lock()
 				r.log = append(r.log, Event{"e": "st", "s": r.byStage[st], "v": statusName[status]})
@@ -357,7 +375,13 @@ func (r *run) quiesce(released map[int]bool, deadline time.Duration) (st []strin
 		pending := false
 		for id := range released {
 			// Run returned (or is returning) but the outcome is not published yet
-			if s1[id-1] == "R" || (s1[id-1] == "E" && r.cfg.Cls[id-1] == "FAILA") {
+			if s1[id-1] == "R" {
+				pending = true
+			}
+		}
+		for i := 1; i <= r.cfg.N; i++ {
+			// the transient Error of an allowed failure: Done follows
+			if s1[i-1] == "E" && r.cfg.Cls[i-1] == "FAILA" {
 				pending = true
 			}
 		}
